@@ -153,7 +153,9 @@ func genC07(t *core.Tape, tier string) *Scenario {
 			info.class, info.wantCode = "undecodable-payload", 3
 			bad := []byte{0xff, 0xff, 0xff, 0xff}
 			if codec == "json" {
-				bad = []byte(`{"not a string"`)
+				bad = [][]byte{[]byte(`{"not a string"`), {0xff, 0xfe}, []byte("\"abc\xff\""), []byte(`{"value": 7}`), []byte("nul\x00l")}[t.Choose(5, "bad.json")]
+			} else if t.Bool(1, 2, "bad.proto.variant") {
+				bad = [][]byte{{0x0a, 0x7f, 'x'}, {0x08}, {0x0a, 0xff, 0xff, 0xff, 0xff, 0x0f}}[t.Choose(3, "bad.proto")]
 			}
 			body = ref.EncodeRequestBody(ref.Proto(proto), streaming, ref.EncOpts{}, [][]byte{bad})
 			delete(hdr, encHeader)
